@@ -11,6 +11,8 @@ From Coq Require Import ZArith List Bool.
 From V Require Import Base.Int Base.IO Model.TimeDelta.
 From V Require Model.Date Model.Time.
 From V Require Import Spec.Gregorian Model.DateTime Model.Parsed Proofs.C08Sweeps Proofs.C14 Proofs.C14Date Proofs.C14Iso.
+From V Require Proofs.C04.
+From V Require Import Proofs.C14Zoned.
 Import ListNotations.
 Open Scope Z_scope.
 
@@ -367,3 +369,110 @@ Example C14_min_timestamp_leap_second_is_out_of_range :
   to_naive_datetime_with_offset ex_min_leap 0 = Val (Err OutOfRange).
 Proof. exact ex_min_leap_out_of_range. Qed.
 Print Assumptions C14_min_timestamp_leap_second_is_out_of_range.
+
+(** ** Date-time level: absence of traps in the last step, and completeness (Proofs/C14Zoned.v).
+    [Proofs.C04.ndt_ok] / [dtz_ok] / [off_ok] are the well-formedness predicates of the C04 theorems
+    (a supported date, seconds of day < 86400, fraction < 2*10^9, offset strictly inside +-24 h). *)
+
+(** a value returned by to_naive_datetime_with_offset is a supported date with a time of day *)
+Theorem C14_to_naive_datetime_never_panics_wellformed :
+  forall p off, typed p -> in_i32 off = true ->
+  exists r, to_naive_datetime_with_offset p off = Val r /\ forall v, r = Ok v -> Proofs.C04.ndt_ok v.
+Proof. exact to_naive_datetime_never_panics_ok. Qed.
+Print Assumptions C14_to_naive_datetime_never_panics_wellformed.
+
+(** ABSENCE OF TRAPS in to_datetime for EVERY typed field state (in particular every state the
+    setters can produce, C14_setters_keep_typed): the offset choice, to_naive_datetime_with_offset,
+    the FixedOffset range check and the final from_local_datetime (C04_from_local_fails_iff) return
+    by value; a returned date-time is well formed *)
+Theorem C14_to_datetime_never_panics :
+  forall p, typed p -> exists r, to_datetime p = Val r /\ forall z, r = Ok z -> Proofs.C04.dtz_ok z.
+Proof. exact to_datetime_never_panics. Qed.
+Print Assumptions C14_to_datetime_never_panics.
+
+(** ... and in to_datetime_with_timezone for every FixedOffset zone (every offset a FixedOffset
+    can hold): the early from_timestamp range check with any nanosecond field, the resolution with
+    the guessed offset, from_local_datetime, the offset comparison *)
+Theorem C14_to_datetime_with_timezone_never_panics :
+  forall p tz, typed p -> -86400 < tz < 86400 ->
+  exists r, to_datetime_with_timezone p tz = Val r /\ forall z, r = Ok z -> Proofs.C04.dtz_ok z /\ dz_off z = tz.
+Proof. exact to_datetime_with_timezone_never_panics. Qed.
+Print Assumptions C14_to_datetime_with_timezone_never_panics.
+
+(** every accepted setter call keeps the field state typed: the states reachable from Parsed::new()
+    by the setters are typed *)
+Theorem C14_setters_keep_typed : forall k p v q u,
+  typed p -> apply_setter k p v = Some (Val (q, Ok u)) -> typed q.
+Proof. exact apply_setter_typed. Qed.
+Print Assumptions C14_setters_keep_typed.
+Theorem C14_new_is_typed : typed parsed_new.
+Proof. exact typed_new. Qed.
+Print Assumptions C14_new_is_typed.
+
+(** COMPLETENESS of to_naive_datetime_with_offset: date fields of the supported date [d] in a
+    documented sufficient combination (as in C14_to_naive_date_complete_iso), hour (am/pm flag and
+    12-hour value), minute [, second [, nanosecond]] in range, the timestamp field absent or the
+    value's own timestamp (one more for a leap-second value): the result is exactly [d] with the
+    time of day of those fields *)
+Theorem C14_to_naive_datetime_complete : forall y o d p hd hm mi off,
+  repr y o d -> typed p -> date_sound p d ->
+  group_ok y (p_year p) (p_year_div_100 p) (p_year_mod_100 p) ->
+  group_ok (fst (iso_of_dn (dn_of_yo y o))) (p_isoyear p) (p_isoyear_div_100 p) (p_isoyear_mod_100 p) ->
+  combination_present y (fst (iso_of_dn (dn_of_yo y o))) p ->
+  time_fields_ok p hd hm mi -> in_i32 off = true ->
+  ts_direct p (mk_ndt d (time_of_fields hd hm mi (unwrap_or (p_second p) 0) (unwrap_or (p_nanosecond p) 0))) off ->
+  to_naive_datetime_with_offset p off =
+  Val (Ok (mk_ndt d (time_of_fields hd hm mi (unwrap_or (p_second p) 0) (unwrap_or (p_nanosecond p) 0)))).
+Proof. exact to_naive_datetime_complete. Qed.
+Print Assumptions C14_to_naive_datetime_complete.
+
+(** COMPLETENESS of to_datetime: [z] is a well-formed DateTime<FixedOffset> whose wall clock [l]
+    lies on a supported date; the fields are those of [l] (as above), the offset field is the
+    offset of [z], the timestamp field is absent or the timestamp of [z]: to_datetime returns
+    exactly [z] *)
+Theorem C14_to_datetime_complete : forall z l y o p hd hm mi,
+  Proofs.C04.dtz_ok z -> overflowing_naive_local z = Val l -> repr y o (nd_date l) ->
+  typed p -> date_sound p (nd_date l) ->
+  group_ok y (p_year p) (p_year_div_100 p) (p_year_mod_100 p) ->
+  group_ok (fst (iso_of_dn (dn_of_yo y o))) (p_isoyear p) (p_isoyear_div_100 p) (p_isoyear_mod_100 p) ->
+  combination_present y (fst (iso_of_dn (dn_of_yo y o))) p ->
+  time_fields_ok p hd hm mi ->
+  nd_time l = time_of_fields hd hm mi (unwrap_or (p_second p) 0) (unwrap_or (p_nanosecond p) 0) ->
+  p_offset p = Some (dz_off z) -> ts_direct p l (dz_off z) ->
+  to_datetime p = Val (Ok z).
+Proof. exact to_datetime_complete. Qed.
+Print Assumptions C14_to_datetime_complete.
+
+(** ... and of to_datetime_with_timezone with the zone of [z] (offset field absent or equal; no
+    timestamp field) *)
+Theorem C14_to_datetime_with_timezone_complete : forall z l y o p hd hm mi,
+  Proofs.C04.dtz_ok z -> overflowing_naive_local z = Val l -> repr y o (nd_date l) ->
+  typed p -> date_sound p (nd_date l) ->
+  group_ok y (p_year p) (p_year_div_100 p) (p_year_mod_100 p) ->
+  group_ok (fst (iso_of_dn (dn_of_yo y o))) (p_isoyear p) (p_isoyear_div_100 p) (p_isoyear_mod_100 p) ->
+  combination_present y (fst (iso_of_dn (dn_of_yo y o))) p ->
+  time_fields_ok p hd hm mi ->
+  nd_time l = time_of_fields hd hm mi (unwrap_or (p_second p) 0) (unwrap_or (p_nanosecond p) 0) ->
+  (p_offset p = None \/ p_offset p = Some (dz_off z)) -> p_timestamp p = None ->
+  to_datetime_with_timezone p (dz_off z) = Val (Ok z).
+Proof. exact to_datetime_with_timezone_complete. Qed.
+Print Assumptions C14_to_datetime_with_timezone_complete.
+
+(** the corollary without hypotheses about field states: year, month, day, hour, minute, second (60
+    for a leap second, which must sit on second 59), nanosecond, offset and optionally the
+    timestamp, read off the wall clock of a well-formed date-time, resolve to that date-time *)
+Theorem C14_to_datetime_of_fields : forall z l y o ts,
+  Proofs.C04.dtz_ok z -> overflowing_naive_local z = Val l -> repr y o (nd_date l) ->
+  (Time.tfrac (nd_time l) < 1000000000 \/ Time.tsecs (nd_time l) mod 60 = 59) ->
+  (forall g, ts = Some g -> in_i64 g = true /\ exists t0, dt_timestamp l = Val t0 /\ g = t0 - dz_off z) ->
+  to_datetime (fields_of_local y o (nd_time l) (dz_off z) ts) = Val (Ok z).
+Proof. exact to_datetime_of_fields. Qed.
+Print Assumptions C14_to_datetime_of_fields.
+
+Example C14_datetime_completeness_inhabited :
+  Proofs.C04.dtz_ok ex_zoned /\
+  overflowing_naive_local ex_zoned = Val (mk_ndt (mkdate 2014 365) (Time.mk_time 16000 0)) /\
+  repr 2014 365 (mkdate 2014 365) /\
+  to_datetime (fields_of_local 2014 365 (Time.mk_time 16000 0) 34200 (Some 1419965800)) = Val (Ok ex_zoned).
+Proof. exact ex_zoned_complete. Qed.
+Print Assumptions C14_datetime_completeness_inhabited.
